@@ -133,10 +133,6 @@ func TestVerifC01(t *testing.T) {
 					if arg < len(guards) {
 						guards[arg].UnpatchWithLock()
 					}
-				case "res":
-					if arg < len(guards) {
-						guards[arg].Restore()
-					}
 				case "unf":
 					lock()
 					unpatchValue(ptrs[arg])
